@@ -182,7 +182,10 @@ pub fn check(v: &View, vd: &mut Verdict) {
         let settle = v.phase(Phase::Settle);
         for a in 0..n {
             if let (Some(z), Some((end, _))) = (zero_at[a], v.actors[a].task_end) {
-                if z < settle && end > teardown && v.actors[a].stop_reqs.is_empty() {
+                // (an actor that is still working off messages accepted before the drop is not "kept alive":
+                // the mailbox is drained first - only one that was idle through the settle window counts)
+                let busy = v.invs.iter().any(|i| i.actor == a && i.exit.unwrap_or(u64::MAX) > settle);
+                if z < settle && end > teardown && v.actors[a].stop_reqs.is_empty() && !busy {
                     vd.class("last_drop_of_subscriber_in_run_phase");
                     vd.fail("C09/subscriber_kept_alive_until_teardown", format!("actor {a}: its last strong handle was dropped at {z}, but it only stopped at {end}, after the broker had been unregistered at {teardown}"));
                 }
